@@ -145,7 +145,18 @@ func stateEvents(fset *token.FileSet, fn *ast.FuncDecl) []string {
 		if !ok || id.Name != recv {
 			return "", false
 		}
-		return recv + "." + sel.Sel.Name, true
+		return "m." + sel.Sel.Name, true // the receiver's name is immaterial
+	}
+	// a callee is identified by its function / method name alone: renaming a local that holds the
+	// receiver does not change which fallible step runs when
+	callee := func(e ast.Expr) string {
+		switch x := e.(type) {
+		case *ast.SelectorExpr:
+			return x.Sel.Name
+		case *ast.Ident:
+			return x.Name
+		}
+		return exprString(fset, e)
 	}
 	ast.Inspect(fn.Body, func(n ast.Node) bool {
 		switch st := n.(type) {
@@ -162,7 +173,7 @@ func stateEvents(fset *token.FileSet, fn *ast.FuncDecl) []string {
 			}
 			if fallible && len(st.Rhs) == 1 {
 				if c, ok := st.Rhs[0].(*ast.CallExpr); ok {
-					out = append(out, "F "+exprString(fset, c.Fun))
+					out = append(out, "F "+callee(c.Fun))
 				}
 			}
 			for _, l := range st.Lhs {
@@ -277,9 +288,8 @@ func collectFacts(group string) map[string]interface{} {
 			facts["flush_found"] = false
 			break
 		}
-		body := exprString(fset, fl.Body)
-		facts["pool_size_40"] = strings.Contains(body, "n := 40") && strings.Contains(body, "gate := make(chan interface{}, n)")
-		facts["storeQ_unbuffered"] = strings.Contains(body, "storeQ := make(chan func() error)")
+		// (the pool bound and the hand-off are observed, not read off the source: the flush family
+		// counts the Store calls in flight and replays every trace through the pool model)
 		ord := orderOf(fset, fl, []string{"close(storeQ)", "wg.Wait()", "firstStoreError != nil", "commit()", "m.root = str"})
 		ok := true
 		for i := range ord {
@@ -303,7 +313,6 @@ func collectFacts(group string) map[string]interface{} {
 		sb := exprString(fset, st.Body)
 		facts["store_no_inplace_before_commit"] = !strings.Contains(strings.Split(sb, "*commits = append")[0], "node.Link[i] =") &&
 			!strings.Contains(strings.Split(sb, "*commits = append")[0], "node.dirty = false")
-		facts["worker_checks_first_error"] = strings.Contains(body, "if firstStoreError != nil { seLock.Unlock() return }")
 	case "atomicity":
 		pf := parseFile(fset, "pub.go")
 		lf := parseFile(fset, "lib.go")
@@ -325,7 +334,7 @@ func collectFacts(group string) map[string]interface{} {
 			var out []string
 			for _, e := range ev {
 				out = append(out, e)
-				if e == "F m.savePathForRoot" {
+				if e == "F savePathForRoot" {
 					out = append(out, "W m.root (installed by savePathForRoot)")
 				}
 			}
@@ -338,8 +347,8 @@ func collectFacts(group string) map[string]interface{} {
 		facts["shrink.events"] = stateEvents(fset, sh)
 		// the tree's fields are assigned only after the last fallible call, apart from the height
 		// step (canGrow / grow, shrink) that runs after the change is installed: known finding
-		facts["Insert.state_writes_before_other_fallible_calls"] = writesBeforeFallible(ie, map[string]bool{"options.path[0].node.canGrow": true, "m.grow": true})
-		facts["Delete.state_writes_before_other_fallible_calls"] = writesBeforeFallible(de, map[string]bool{"m.shrink": true})
+		facts["Insert.state_writes_before_other_fallible_calls"] = writesBeforeFallible(ie, map[string]bool{"canGrow": true, "grow": true})
+		facts["Delete.state_writes_before_other_fallible_calls"] = writesBeforeFallible(de, map[string]bool{"shrink": true})
 	case "writes":
 		facts["node_writes"] = nodeWrites(fset, []string{"lib.go", "pub.go", "store.go", "diff.go", "codec.go"})
 		facts["node_slice_shares"] = nodeSliceShares(fset, []string{"lib.go", "pub.go", "store.go", "diff.go", "codec.go"})
